@@ -30,13 +30,19 @@ sec8 = """----------------------------------------------------------------------
 ## 8. Seeded changes, and which checks catch them
 
 @N@ changes were produced by fresh sub-agents that were given only the text of one
-property and a scratch worktree of /repo (nothing from /verif), in four rounds of
+property and a scratch worktree of /repo (nothing from /verif), in five rounds of
 two changes per property (round 2 was told the summaries of round 1 and asked for
 harder, different mechanisms; round 3 was told all four earlier summaries and asked
 to look away from the obvious function: shared helpers, type definitions, derive
 attributes, constants, iterator chains, match-arm order, build.rs, Cargo.toml, the
 data file; round 4 (-g, -h) was asked for slips disguised as honest refactorings, two
-cooperating sites, one build configuration, less-used entry points). Each was confirmed by `tools/confirm_mutant.py` in a scratch worktree:
+cooperating sites, one build configuration, less-used entry points; round 5 (-i, -j), run
+after the canonical forms had been widened for the refactoring corpus of section 8.2, was asked
+to write every change as an idiomatic clean-up in exactly the constructs those canonical forms
+accept - Option/Result combinators, early returns, re-measured lengths, `Parser` method chains,
+`value`/`cond`/`iterator`, const tables with `contains`/`find` or indexed by `enum as usize`,
+ranges, reversed `From`/`TryFrom` delegation, shared helpers, hand-expanded macros - with one
+boundary, row or arm off). Each was confirmed by `tools/confirm_mutant.py` in a scratch worktree:
 the three configurations compile and the existing tests pass (default and
 serialize) with the change; its demonstration test fails with the change and passes
 without it. None is applied to /repo. To run the checks against one:
@@ -44,7 +50,7 @@ without it. None is applied to /repo. To run the checks against one:
 (or `tools/try_mutant.py <id>` in a scratch worktree).
 
 Result: **every one of the @N@ is reported by the check of the property it breaks.**
-Eleven were missed (or would have been, and were predicted before running) by the
+Thirteen were missed (or would have been, and were predicted before running) by the
 check of their own property at first and led to stronger rules - in no case was a
 rule loosened:
 * C07-c (a guard moved before the reads in the shared heartbeat parser): C07 now also
@@ -75,6 +81,13 @@ rule loosened:
   every branch they were missed until the `/no-overlap` rule (same bytes read by a
   structure-deciding element of an earlier alternative / a re-read) was added, which
   reports them for the reason they are wrong.
+* C06-j (a DTLS fragment returned with `return map(parse_dtls_fragment, wrap)(raw_msg)`, so the
+  caller gets what was left of the *region*): REMAINDER-SUFFIX now reports a parser applied to a
+  region whose result is returned as it is. C11-j (the DTLS ServerHello routed through the TLS
+  entry point, which peeks the version and rejects what is not in its table): C11 had no row for
+  the code points inside DTLS handshake messages - seven rows added, anchored at the exported
+  dispatcher - and a test on a *peeked* value now counts as a test on the bytes the peek read
+  (`/no-overlap`), which is how the version is constrained there.
 
 The column "caught by" lists every property check that reports the change (from
 `seeded/MATRIX.json`, all 18 checks run against every change); "rules" are the rules
